@@ -54,6 +54,8 @@ pub struct Recorder {
     /// share of the systems that are registered as zero-sized types, and the table slots this recorder holds
     pub zst_share: f64,
     pub zslots: Vec<usize>,
+    /// the program has systems with static system-data types (the harness provides their resources)
+    pub has_stat: bool,
     /// a pool attached to the top-level builder BEFORE anything is registered (otherwise the caller attaches one at the end)
     #[cfg(feature = "parallel")]
     pub early_pool: Option<std::sync::Arc<rayon::ThreadPool>>,
@@ -146,6 +148,7 @@ impl Recorder {
             noise_share: NOISE.with(|n| n.get()),
             zst_share: ZST.with(|n| n.get()),
             zslots: Vec::new(),
+            has_stat: false,
             #[cfg(feature = "parallel")]
             early_pool: None,
             toggle_counter: 0,
@@ -303,7 +306,7 @@ impl Recorder {
             .ops
             .iter()
             .filter_map(|o| match o {
-                Op::Add { name, .. } | Op::Batch { name, .. } if !name.is_empty() => Some(name.clone()),
+                Op::Add { name, .. } | Op::Batch { name, .. } | Op::Stat { name, .. } if !name.is_empty() => Some(name.clone()),
                 _ => None,
             })
             .collect();
@@ -353,7 +356,8 @@ impl Recorder {
         let bidx = self.next_builder;
         self.next_builder += 1;
         self.events.push(json!({"ev":"new","b":bidx}));
-        let mut b: DispatcherBuilder<'static, 'static> = DispatcherBuilder::new();
+        // (`new()` is documented as "using the Default implementation": both must give the same builder)
+        let mut b: DispatcherBuilder<'static, 'static> = if self.rng.gen_bool(0.3) { Default::default() } else { DispatcherBuilder::new() };
         #[cfg(feature = "parallel")]
         if bidx == 1 {
             if let Some(p) = self.early_pool.clone() {
@@ -486,6 +490,24 @@ impl Recorder {
                     };
                     let after = norm(bidx, b.verif_layout());
                     self.log_add("add", bidx, gid, r, w, &rname, &rdeps, *t, out, &before, &after, json!({}));
+                    let last = self.sys.last_mut().unwrap();
+                    last.kind = "plain";
+                }
+                Op::Stat { kind, deps, t, name } => {
+                    let gid = self.next_gid;
+                    self.next_gid += 1;
+                    let (r, w) = crate::prog::stat_access(*kind);
+                    self.has_stat = true;
+                    let rname = self.variant_name_in(name, bidx);
+                    let rdeps: Vec<String> = self.variant_deps(deps, bidx);
+                    let before = norm(bidx, b.verif_layout());
+                    let ctx = self.ctx.clone();
+                    let out = crate::with_hstat!(*kind, gid, *t, ctx, |sys| catch_unwind(AssertUnwindSafe(|| {
+                        let d: Vec<&str> = rdeps.iter().map(|s| s.as_str()).collect();
+                        b.add(sys, &rname, &d)
+                    })));
+                    let after = norm(bidx, b.verif_layout());
+                    self.log_add("add", bidx, gid, &r, &w, &rname, &rdeps, *t, out, &before, &after, json!({"static": kind}));
                     let last = self.sys.last_mut().unwrap();
                     last.kind = "plain";
                 }
